@@ -166,8 +166,15 @@ def judge_gym_switching(name, seed):
     inner = configs.build(dict(configs.all_configs())[name])
     inner.set_seed(seed)
     srep = P.make_state_representation('default', inner.state_space) if inner.state_space.can_be_represented else None
-    ge = GG.GymEnvironment(OuterEnv(inner, state_representation=srep,
-                                    observation_representation=P.make_observation_representation('default', inner.observation_space)))
+    orep = P.make_observation_representation('default', inner.observation_space)
+    ge = GG.GymEnvironment(OuterEnv(inner, state_representation=srep, observation_representation=orep))
+    # a bystander: a second environment that was handed the SAME representation objects and is never switched nor stepped;
+    # what it advertises and emits must not move when the first environment is switched
+    inner2 = configs.build(dict(configs.all_configs())[name])
+    inner2.set_seed(seed)
+    by = GG.GymEnvironment(OuterEnv(inner2, state_representation=srep, observation_representation=orep))
+    by.reset()
+    by_base = {k: np.array(v, copy=True) for k, v in by.observation.items()}
     n = 0
     ge.reset()
     order = ['compact', 'default', 'no-overlap', 'compact', 'no-overlap', 'default', 'compact']
@@ -182,6 +189,15 @@ def judge_gym_switching(name, seed):
             space = ge.observation_space if which == 'observation' else ge.state_space
             if not space.contains(cur):
                 return n, f'{name}: after switching the {which} representation to {repname} the current {which} is outside the advertised space'
+            try:
+                by_cur = by.observation
+                ok = by.observation_space.contains(by_cur) and set(by_cur) == set(by_base) and all(
+                    np.array_equal(by_cur[k], by_base[k]) for k in by_base)
+            except Exception as e:  # noqa: BLE001
+                ok = False
+            if not ok:
+                return n, (f'{name}: switching the {which} representation of ONE gym environment to {repname} changed what another '
+                           f'environment (built with the same representation objects, never switched) emits / advertises')
         out = ge.step(i % ge.action_space.n)
         if not ge.observation_space.contains(out[0]):
             return n, f'{name}: step output outside the advertised observation space under {repname}'
@@ -255,6 +271,12 @@ def spaces(tier):
                 out.append(('observation', sh, ts, cs))
     if tier == 'quick':
         out += [('observation', (7, 7), tuple(s), (1, 2, 3, 4)) for s in P.SHIPPED_TYPE_SETS]
+    # degenerate observation spaces: no cell type of their own (Hidden and the empty hand are admitted by every
+    # observation space), or only the two special types listed explicitly
+    for ts in ((), ('NoneGridObject',), ('Hidden',), ('Hidden', 'NoneGridObject')):
+        for cs in ((), (1, 4)):
+            for sh in ((1, 1), (2, 3)):
+                out.append(('observation', sh, ts, cs))
     return out
 
 
